@@ -4,11 +4,6 @@ package PVM
 
 // Overlay-only helpers of the C03 harness (add-only; nothing here is compiled without -tags verif).
 
-// VerifC03Djump runs the dynamic-jump table lookup of a deblobbed program for the jump address a.
-func VerifC03Djump(p *Program, a uint32) (ExitReason, ProgramCounter) {
-	return djump(0, a, p.JumpTable, p.Bitmasks)
-}
-
 // VerifC03Blocks counts the basic-block table entries of a deblobbed program.
 func VerifC03Blocks(p *Program) int {
 	n := 0
